@@ -234,6 +234,15 @@ class FunctionGrid(FixedGrid):
 
     def normalized(self, N):
         return self.normalized_fun(N)
+
+    def bounds_T(self, T_local, t0_local, k, T, N):
+        # The intervals of a user-defined grid are not ordered: bound each of them
+        if not self.localize_T and not (self.min==0 and self.max==inf):
+            n = self.normalized(N)
+            yield (self.min <= (T*(n[k+1]-n[k]) <= self.max), {})
+        for e in FixedGrid.bounds_T(self, T_local, t0_local, k, T, N):
+            yield e
+
 class DensityGrid(FixedGrid):
     def __init__(self, density, integrator='cvodes',integrator_options=None,**kwargs):
         """
@@ -281,7 +290,9 @@ class DensityGrid(FixedGrid):
         res.append(1.0)
         self.cache[N] = res
         return res
-    
+
+    bounds_T = FunctionGrid.bounds_T
+
 class DenseEdgesGrid(DensityGrid):
     def __init__(self, multiplier=10, edge_frac=0.1, **kwargs):
         interp = ca.interpolant('interp','bspline',[[0.0,edge_frac,1-edge_frac,1.0]],[multiplier,1.0,1.0,multiplier],{"algorithm":"smooth_linear"})
